@@ -2,9 +2,11 @@
    ONLY restatements closed by `exact`, each followed by Print Assumptions.
    Model: JsonLD/Safe.v; proofs: JsonLD/SafeTheory.v.
 
-   Reading.  [merklize_doc cf B safe dl d] is merklize.MerklizeJSONLD on document
-   [d] with mz.safeMode = safe and document loader [dl] (merklize.go:1578-1611):
-   Normalize (fresh ToRDF options: SafeMode NOT forwarded), entries, tree, then
+   Reading.  [merklize_doc cf B safe dl t0 d] is merklize.MerklizeJSONLD on document
+   [d] with mz.safeMode = safe, document loader [dl] and tree [t0] (a new tree, or the
+   caller's: leaves so far, number of Add calls so far, index of an Add call that
+   fails) (merklize.go:1578-1611): Normalize (fresh ToRDF options: SafeMode NOT
+   forwarded), EntriesFromRDF (error returned), one mt.Add per entry (error returned), then
    proc.Compact(obj, nil, options), the only call that sees the mode; ANY error of
    that call is returned.  [dl : option dloader]: None = a nil loader; Some l = a
    stateful loader that answers like [dl_normalize l] while Normalize runs and like
@@ -37,7 +39,7 @@
    (D27) json-gold's test is "contains ':'", not "absolute IRI": keys like "_:b" or
          ":x" pass and are dropped later by ToRDF.
    C15_safe states it under the hypothesis that excludes exactly these two shapes. *)
-From Coq Require Import List String Bool NArith.
+From Coq Require Import List String Bool NArith ZArith Permutation.
 From GSP Require Import Base.Prelude JsonLD.Safe JsonLD.SafeTheory.
 Import ListNotations.
 Open Scope string_scope.
@@ -46,8 +48,8 @@ Open Scope string_scope.
    array items, @graph/@included/@reverse/@nest) outside @list/@set/@default values
    is defined under its active context — for every loader behaviour *)
 Theorem C15_safe_partial :
-  forall (cf : nat) (E DS R C : Type) (B : backend E DS R C) (dl : option dloader) (d : json) (r : R),
-  merklize_doc cf B true dl d = Ok r ->
+  forall (cf : nat) (E DS En C : Type) (B : backend E DS En C) (t0 : mtree) (dl : option dloader) (d : json) (r : list En * mtree),
+  merklize_doc cf B true dl t0 d = Ok r ->
   forall (p : path) (cn : ctx) (k : string),
   occurs (view_compact dl) cf true empty_ctx "" false false d p cn k false ->
   key_defined cn k = true.
@@ -59,8 +61,8 @@ Print Assumptions C15_safe_partial.
     D27: key whose expansion contains ':' without being an absolute, non-blank IRI):
    success => the key is a keyword/alias or expands to an absolute IRI *)
 Theorem C15_safe :
-  forall (cf : nat) (E DS R C : Type) (B : backend E DS R C) (dl : option dloader) (d : json) (r : R),
-  merklize_doc cf B true dl d = Ok r ->
+  forall (cf : nat) (E DS En C : Type) (B : backend E DS En C) (t0 : mtree) (dl : option dloader) (d : json) (r : list En * mtree),
+  merklize_doc cf B true dl t0 d = Ok r ->
   forall (p : path) (cn : ctx) (k : string),
   occurs (view_compact dl) cf true empty_ctx "" false false d p cn k false ->
   colon_not_absolute cn k = false ->
@@ -72,44 +74,44 @@ Print Assumptions C15_safe.
    fail, whatever the loader did while Normalize ran: never Ok with entries already
    built from an expansion that dropped fields *)
 Theorem C15_safe_load_failure :
-  forall (cf : nat) (E DS R C : Type) (B : backend E DS R C) (dl : option dloader) (d : json),
+  forall (cf : nat) (E DS En C : Type) (B : backend E DS En C) (t0 : mtree) (dl : option dloader) (d : json),
   (forall os, undefined_occ (view_compact dl) cf d <> Ok os) ->
-  forall r : R, merklize_doc cf B true dl d <> Ok r.
+  forall r : list En * mtree, merklize_doc cf B true dl t0 d <> Ok r.
 Proof. exact safe_compact_phase_failure. Qed.
 Print Assumptions C15_safe_load_failure.
 
 (* some undefined member (outside @list/@set/@default values) => never Ok *)
 Theorem C15_safe_rejects :
-  forall (cf : nat) (E DS R C : Type) (B : backend E DS R C) (dl : option dloader)
+  forall (cf : nat) (E DS En C : Type) (B : backend E DS En C) (t0 : mtree) (dl : option dloader)
          (d : json) (p : path) (cn : ctx) (k : string),
   occurs (view_compact dl) cf true empty_ctx "" false false d p cn k false ->
   key_defined cn k = false ->
-  forall r : R, merklize_doc cf B true dl d <> Ok r.
+  forall r : list En * mtree, merklize_doc cf B true dl t0 d <> Ok r.
 Proof. exact safe_rejects_undefined. Qed.
 Print Assumptions C15_safe_rejects.
 
 (* ... and it is exactly the "invalid property" error whenever the same document
    merklizes in unsafe mode *)
 Theorem C15_safe_rejects_err :
-  forall (cf : nat) (E DS R C : Type) (B : backend E DS R C) (dl : option dloader)
-         (d : json) (p : path) (cn : ctx) (k : string) (os : list occ) (r' : R),
+  forall (cf : nat) (E DS En C : Type) (B : backend E DS En C) (t0 : mtree) (dl : option dloader)
+         (d : json) (p : path) (cn : ctx) (k : string) (os : list occ) (r' : list En * mtree),
   occurs (view_compact dl) cf true empty_ctx "" false false d p cn k false ->
   key_defined cn k = false ->
   undefined_occ (view_compact dl) cf d = Ok os ->
-  merklize_doc cf B false dl d = Ok r' ->
-  merklize_doc cf B true dl d = Err "invalid property".
+  merklize_doc cf B false dl t0 d = Ok r' ->
+  merklize_doc cf B true dl t0 d = Err "invalid property".
 Proof. exact safe_rejects_undefined_err. Qed.
 Print Assumptions C15_safe_rejects_err.
 
 (* no spurious rejection: if every member expansion reaches is defined, both modes
    give the same result (same root, same error) *)
 Theorem C15_modes_agree_when_defined :
-  forall (cf : nat) (E DS R C : Type) (B : backend E DS R C) (dl : option dloader)
+  forall (cf : nat) (E DS En C : Type) (B : backend E DS En C) (t0 : mtree) (dl : option dloader)
          (d : json) (os : list occ),
   undefined_occ (view_compact dl) cf d = Ok os ->
   (forall p cn k s, occurs (view_compact dl) cf false empty_ctx "" false false d p cn k s ->
                     key_defined cn k = true) ->
-  merklize_doc cf B true dl d = merklize_doc cf B false dl d.
+  merklize_doc cf B true dl t0 d = merklize_doc cf B false dl t0 d.
 Proof. exact modes_agree_when_defined. Qed.
 Print Assumptions C15_modes_agree_when_defined.
 
@@ -135,22 +137,22 @@ Print Assumptions C15_scan_sound.
    general, members whose error is swallowed are invisible to safe mode *)
 Theorem C15_safe_refuted :
   exists (d : json) (p : path),
-    merklize_doc 20 Examples.idB true Examples.steady_none d = Ok d /\
+    merklize_doc 20 Examples.idB true Examples.steady_none fresh_tree d = Ok Examples.one_leaf /\
     undefined_occ Examples.no_loader 20 d = Ok [(p, true)].
 Proof. exact (ex_intro _ _ (ex_intro _ _ Examples.in_set_accepted)). Qed.
 Print Assumptions C15_safe_refuted.
 
 Theorem C15_swallowed_invisible :
-  forall (cf : nat) (E DS R C : Type) (B : backend E DS R C) (dl : option dloader)
+  forall (cf : nat) (E DS En C : Type) (B : backend E DS En C) (t0 : mtree) (dl : option dloader)
          (d : json) (os : list occ),
   undefined_occ (view_compact dl) cf d = Ok os -> existsb unswallowed os = false ->
-  merklize_doc cf B true dl d = merklize_doc cf B false dl d.
+  merklize_doc cf B true dl t0 d = merklize_doc cf B false dl t0 d.
 Proof. exact swallowed_invisible. Qed.
 Print Assumptions C15_swallowed_invisible.
 
 (* reason (D27): json-gold's "defined" is weaker than "expands to an absolute IRI" *)
 Theorem C15_weaker_than_absolute :
-  merklize_doc 20 Examples.idB true Examples.steady_none Examples.blank_prop = Ok Examples.blank_prop /\
+  merklize_doc 20 Examples.idB true Examples.steady_none fresh_tree Examples.blank_prop = Ok Examples.one_leaf /\
   key_absolute (Ctx [] None None) "_:p" = false /\ key_defined (Ctx [] None None) "_:p" = true.
 Proof. exact Examples.blank_property_passes. Qed.
 Print Assumptions C15_weaker_than_absolute.
@@ -160,11 +162,11 @@ Print Assumptions C15_weaker_than_absolute.
    interface property of json-gold's expansion stated as the hypothesis (validated
    per run: harness class c15-expansion-keeps-undefined) *)
 Theorem C15_unsafe :
-  forall (cf : nat) (E DS R C : Type) (B : backend E DS R C),
+  forall (cf : nat) (E DS En C : Type) (B : backend E DS En C) (t0 : mtree),
   (forall ld d, b_expand B ld d = b_expand B ld (strip_undefined ld cf d)) ->
   forall (ld : string -> res json) (d : json),
   let dl := Some {| dl_normalize := ld; dl_compact := ld |} in
-  merklize_doc cf B false dl d = merklize_doc cf B false dl (strip_undefined ld cf d).
+  merklize_doc cf B false dl t0 d = merklize_doc cf B false dl t0 (strip_undefined ld cf d).
 Proof. exact unsafe_is_stripped. Qed.
 Print Assumptions C15_unsafe.
 
@@ -174,12 +176,12 @@ Print Assumptions C15_unsafe.
    C15_scan_sound / C15_scan_complete the reported members are exactly the undefined
    members expansion reaches *)
 Theorem C15_unsafe_removal :
-  forall (cf : nat) (E DS R C : Type) (B : backend E DS R C),
+  forall (cf : nat) (E DS En C : Type) (B : backend E DS En C) (t0 : mtree),
   (forall ld d, b_expand B ld d = b_expand B ld (strip_undefined ld cf d)) ->
   forall (ld : string -> res json) (d : json) (os : list occ),
   wf d -> undefined_occ ld cf d = Ok os ->
   let dl := Some {| dl_normalize := ld; dl_compact := ld |} in
-  merklize_doc cf B false dl d = merklize_doc cf B false dl (remove_members (map fst os) d).
+  merklize_doc cf B false dl t0 d = merklize_doc cf B false dl t0 (remove_members (map fst os) d).
 Proof. exact unsafe_is_removal. Qed.
 Print Assumptions C15_unsafe_removal.
 
@@ -190,13 +192,90 @@ Theorem C15_strip_is_removal :
 Proof. exact strip_is_removal. Qed.
 Print Assumptions C15_strip_is_removal.
 
+(* C15_unsafe at the level of entries and tree *)
+Theorem C15_unsafe_equals_stripped :
+  forall (cf : nat) (E DS En C : Type) (B : backend E DS En C) (t0 : mtree),
+  (forall ld d, b_expand B ld d = b_expand B ld (strip_undefined ld cf d)) ->
+  forall (ld : string -> res json) (d : json) (es : list En) (t : mtree),
+  let dl := Some {| dl_normalize := ld; dl_compact := ld |} in
+  merklize_doc cf B false dl t0 d = Ok (es, t) ->
+  merklize_doc cf B false dl t0 (strip_undefined ld cf d) = Ok (es, t).
+Proof. exact unsafe_equals_stripped. Qed.
+Print Assumptions C15_unsafe_equals_stripped.
+
+(* A successful merklization (either mode, any loader, tree [t0] = a new one or the
+   caller's, possibly with a failing Add step [t_fail_at]) covers the document:
+   [es] is exactly what EntriesFromRDF gives for the dataset of this document (its
+   error is never skipped), every entry is a leaf of the returned tree (KeyValueMtEntries
+   and every mt.Add succeeded), the tree grew by exactly |es| leaves and kept the old
+   ones, and no Add call hit the failing step: an Add failure is propagated. *)
+Theorem C15_success_covers_entries :
+  forall (cf : nat) (E DS En C : Type) (B : backend E DS En C) (t0 : mtree)
+         (safe : bool) (dl : option dloader) (d : json) (es : list En) (t : mtree),
+  merklize_doc cf B safe dl t0 d = Ok (es, t) ->
+  (exists e ds, b_expand B (view_normalize dl) d = Ok e /\ b_to_rdf B e = Ok ds /\ b_entries B ds = Ok es) /\
+  (forall en, In en es -> exists k v, b_kv B en = Ok (k, v) /\ In (k, v) (t_leaves t)) /\
+  List.length (t_leaves t) = List.length (t_leaves t0) + List.length es /\
+  incl (t_leaves t0) (t_leaves t) /\
+  (forall n, t_fail_at t0 = Some n -> ~ (t_adds t0 <= n < t_adds t0 + List.length es)).
+Proof. exact success_covers_entries. Qed.
+Print Assumptions C15_success_covers_entries.
+
+(* ... and at the level of the document.  [doc_facts ld d] = the facts stated by the
+   defined members of [d] (C01's facts of the document), [fact_of] = the fact an entry
+   stands for.  HYPOTHESIS (the document-level reading of C01: dataset level proved in
+   RDF/, JSON-LD level differential; checked per run by the harness post-condition
+   c15-field-count / c15-field-missing): whenever expansion, ToRDF and EntriesFromRDF
+   succeed, the entries are a permutation of the facts.  Then success => every fact of
+   the document is an entry AND a leaf of the tree, and |entries| = |facts|. *)
+Theorem C15_success_covers_document :
+  forall (cf : nat) (E DS En C : Type) (B : backend E DS En C) (t0 : mtree)
+         (F : Type) (fact_of : En -> F) (doc_facts : (string -> res json) -> json -> list F)
+         (safe : bool) (dl : option dloader) (d : json) (es : list En) (t : mtree),
+  (forall ld d e ds es, b_expand B ld d = Ok e -> b_to_rdf B e = Ok ds -> b_entries B ds = Ok es ->
+                        Permutation (map fact_of es) (doc_facts ld d)) ->
+  merklize_doc cf B safe dl t0 d = Ok (es, t) ->
+  Permutation (map fact_of es) (doc_facts (view_normalize dl) d) /\
+  List.length es = List.length (doc_facts (view_normalize dl) d) /\
+  (forall f, In f (doc_facts (view_normalize dl) d) ->
+     exists en k v, In en es /\ fact_of en = f /\ b_kv B en = Ok (k, v) /\ In (k, v) (t_leaves t)) /\
+  List.length (t_leaves t) = List.length (t_leaves t0) + List.length (doc_facts (view_normalize dl) d).
+Proof. exact success_covers_document. Qed.
+Print Assumptions C15_success_covers_document.
+
+Theorem C15_add_failure_propagated :
+  forall (cf : nat) (E DS En C : Type) (B : backend E DS En C) (t0 : mtree)
+         (safe : bool) (dl : option dloader) (d : json) (es : list En) (t : mtree) (n : nat),
+  merklize_doc cf B safe dl t0 d = Ok (es, t) -> t_fail_at t0 = Some n ->
+  ~ (t_adds t0 <= n < t_adds t0 + List.length es).
+Proof. exact add_failure_propagated. Qed.
+Print Assumptions C15_add_failure_propagated.
+
+(* REFUTED variants (seeded changes): with the error check after EntriesFromRDF (C15-k)
+   or after mt.Add (C15-m) switched off, the pipeline reports success with a field
+   missing from the tree, where the code as it is returns the error *)
+Theorem C15_seeded_k_refuted :
+  merklize_gen 20 Examples.errB {| f_ignore_entries_err := true; f_ignore_add_err := false |} true
+               Examples.steady_none fresh_tree Examples.good = Ok ([], fresh_tree) /\
+  merklize_doc 20 Examples.errB true Examples.steady_none fresh_tree Examples.good = Err "unparsable literal".
+Proof. exact Examples.seeded_k_refuted. Qed.
+Print Assumptions C15_seeded_k_refuted.
+
+Theorem C15_seeded_m_refuted :
+  merklize_gen 20 Examples.idB {| f_ignore_entries_err := false; f_ignore_add_err := true |} true
+               Examples.steady_none Examples.failing0 Examples.good
+    = Ok ([tt], {| t_leaves := []; t_adds := 1; t_fail_at := Some 0 |}) /\
+  merklize_doc 20 Examples.idB true Examples.steady_none Examples.failing0 Examples.good = Err "tree storage failure".
+Proof. exact Examples.seeded_m_refuted. Qed.
+Print Assumptions C15_seeded_m_refuted.
+
 (* the default is safe at every entry point that merklizes, for EVERY loader
    configuration: [default] = the process-wide loader (None after
    SetDocumentLoader(nil)), [opts] may contain WithDocumentLoader (nil allowed), IPFS
    options and anything else except WithSafeMode.  The loader actually used is
    getDocumentLoader's choice: explicit loader, else IPFS loader, else the default. *)
 Theorem C15_default :
-  forall (cf : nat) (E DS R C : Type) (B : backend E DS R C)
+  forall (cf : nat) (E DS En C : Type) (B : backend E DS En C)
          (default : option dloader) (opts : list mz_option) (d : json),
   (forall o, In o opts -> forall b, o <> WithSafeMode b) ->
   let ldr :=
@@ -207,11 +286,16 @@ Theorem C15_default :
               | None => default
               end
     end in
-  MerklizeJSONLD cf B default opts d = merklize_doc cf B true ldr d /\
-  W3CCredential_Merklize cf B default d opts = merklize_doc cf B true ldr d /\
-  ToCoreClaim_merklize cf B default d (Some opts) = merklize_doc cf B true ldr d /\
-  ToCoreClaim_merklize cf B default d None = merklize_doc cf B true default d /\
-  VerifyProof_merklize cf B default d opts = merklize_doc cf B true ldr d /\
+  let tr :=
+    match fold_left (fun acc o => match o with WithMerkleTree t => Some t | _ => acc end) opts None with
+    | Some t => t
+    | None => fresh_tree
+    end in
+  MerklizeJSONLD cf B default opts d = merklize_doc cf B true ldr tr d /\
+  W3CCredential_Merklize cf B default d opts = merklize_doc cf B true ldr tr d /\
+  ToCoreClaim_merklize cf B default d (Some opts) = merklize_doc cf B true ldr tr d /\
+  ToCoreClaim_merklize cf B default d None = merklize_doc cf B true default fresh_tree d /\
+  VerifyProof_merklize cf B default d opts = merklize_doc cf B true ldr tr d /\
   ld_safe_mode (options_jsonld_options default) = true.
 Proof. exact default_safe. Qed.
 Print Assumptions C15_default.
@@ -222,7 +306,7 @@ Print Assumptions C15_default.
    (verifyConfig.merklizeOptions); the last WithSafeMode wins, none means safe;
    the mode does not depend on the loader configuration *)
 Theorem C15_plumbing :
-  forall (cf : nat) (E DS R C : Type) (B : backend E DS R C)
+  forall (cf : nat) (E DS En C : Type) (B : backend E DS En C)
          (default : option dloader) (opts : list mz_option) (d : json),
   let mode := fold_left (fun acc o => match o with WithSafeMode b => b | _ => acc end) opts true in
   let ldr :=
@@ -233,10 +317,15 @@ Theorem C15_plumbing :
               | None => default
               end
     end in
-  MerklizeJSONLD cf B default opts d = merklize_doc cf B mode ldr d /\
-  W3CCredential_Merklize cf B default d opts = merklize_doc cf B mode ldr d /\
-  ToCoreClaim_merklize cf B default d (Some opts) = merklize_doc cf B mode ldr d /\
-  VerifyProof_merklize cf B default d opts = merklize_doc cf B mode ldr d.
+  let tr :=
+    match fold_left (fun acc o => match o with WithMerkleTree t => Some t | _ => acc end) opts None with
+    | Some t => t
+    | None => fresh_tree
+    end in
+  MerklizeJSONLD cf B default opts d = merklize_doc cf B mode ldr tr d /\
+  W3CCredential_Merklize cf B default d opts = merklize_doc cf B mode ldr tr d /\
+  ToCoreClaim_merklize cf B default d (Some opts) = merklize_doc cf B mode ldr tr d /\
+  VerifyProof_merklize cf B default d opts = merklize_doc cf B mode ldr tr d.
 Proof. exact plumbing_all. Qed.
 Print Assumptions C15_plumbing.
 
@@ -255,7 +344,7 @@ Print Assumptions C15_options_mode.
 
 (* Normalize never sees the mode (processor.go:572 builds fresh options) *)
 Theorem C15_normalize_ignores_mode :
-  forall (cf : nat) (E DS R C : Type) (B : backend E DS R C)
+  forall (cf : nat) (E DS En C : Type) (B : backend E DS En C)
          (s1 s2 : bool) (dl : option dloader) (d : json),
   proc_normalize cf B (new_jsonld_options s1 dl) d = proc_normalize cf B (new_jsonld_options s2 dl) d.
 Proof. exact normalize_ignores_mode. Qed.
